@@ -85,8 +85,8 @@ func buildPoolUniverse(reg univ.Regime) *poolUniverse {
 	ta1, ta2 := spend(as[1], a1[0], 2, 3)
 	tax1, tax2 := spend(as[1], a1[0], 3, 4) // conflicts with a
 	tb1, tb2 := spend(as[1], a1[1], 2, 3)
-	tc1, tc2 := spend(as[1], a1[2], 2, 3)   // conflicts with the spend in m2
-	tm1, tm2 := spend(as[1], a1[2], 3, 5)   // goes into block m2
+	tc1, tc2 := spend(as[1], a1[2], 2, 3) // conflicts with the spend in m2
+	tm1, tm2 := spend(as[1], a1[2], 3, 5) // goes into block m2
 	td1, td2 := spend(as[2], a2[1], 0, 2)
 	te1, te2 := spend(as[3], a3[0], 0, 2)
 	tf1, tf2 := spend(as[3], a3[1], 0, 2)
